@@ -306,7 +306,7 @@ func budget(p *Property, tier string) time.Duration {
 }
 
 func workerMain(p *Property, tier string, opt map[string]string) int {
-	jobs := p.Jobs(tier)
+	jobs := jobsOf(p, tier)
 	var idx []int
 	for _, s := range strings.Split(opt["worker"], ",") {
 		if n, err := strconv.Atoi(s); err == nil && n >= 0 && n < len(jobs) {
@@ -374,7 +374,7 @@ func parentMain(p *Property, tier string, opt map[string]string) int {
 	t0 := time.Now()
 	root := opt["root"]
 	seed, _ := strconv.Atoi(os.Getenv("VERIF_SEED"))
-	jobs := p.Jobs(tier)
+	jobs := jobsOf(p, tier)
 	nw, _ := strconv.Atoi(opt["workers"])
 	if nw < 1 {
 		nw = 1
@@ -640,4 +640,21 @@ func replayExplore(prop string, scens []*Scenario, oracle Oracle, v coop.Violati
 	}
 	fmt.Fprintln(os.Stderr, "scenario not found:", v.Scenario)
 	return 2
+}
+
+// jobsOf: the jobs of a property; VERIF_ONLY=<substring> (development aid, never set by the registered commands) keeps only
+// the jobs whose name contains the substring.
+func jobsOf(p *Property, tier string) []Job {
+	jobs := p.Jobs(tier)
+	only := os.Getenv("VERIF_ONLY")
+	if only == "" {
+		return jobs
+	}
+	var out []Job
+	for _, j := range jobs {
+		if strings.Contains(j.Name, only) {
+			out = append(out, j)
+		}
+	}
+	return out
 }
